@@ -345,7 +345,63 @@ class _Canon(ast.NodeTransformer):
         return node
 
 
+def _canon_private_params(tree: ast.Module) -> None:
+    """A parameter of a private module-level function (only ever called directly by name inside its module) is named after what it is
+    bound to: when every call site passes a plain variable of one and the same name N for it, the parameter is called N (unless N is
+    already used inside the callee).  On code that follows the usual convention (`helper(state=state, shots=shots)`) this changes nothing;
+    it makes the rules see the same names after a parameter of a helper was renamed."""
+    uses: Dict[str, int] = {}
+    calls: Dict[str, List[ast.Call]] = {}
+    for n in ast.walk(tree):
+        if isinstance(n, ast.Name) and isinstance(n.ctx, ast.Load):
+            uses[n.id] = uses.get(n.id, 0) + 1
+        if isinstance(n, ast.Call) and isinstance(n.func, ast.Name):
+            calls.setdefault(n.func.id, []).append(n)
+    for f in tree.body:
+        if not (isinstance(f, ast.FunctionDef) and f.name.startswith("_") and not f.name.startswith("__")):
+            continue
+        sites = calls.get(f.name, [])
+        if not sites or uses.get(f.name, 0) != len(sites) or f.args.vararg or f.args.kwarg:
+            continue
+        if any(isinstance(x, (ast.Lambda, ast.ClassDef, ast.Global, ast.Nonlocal)) or (isinstance(x, ast.FunctionDef) and x is not f) for x in ast.walk(f)):
+            continue
+        if any(isinstance(a, ast.Starred) for c in sites for a in c.args) or any(k.arg is None for c in sites for k in c.keywords):
+            continue
+        pos = [a.arg for a in f.args.args]
+        allp = pos + [a.arg for a in f.args.kwonlyargs]
+        body_names = {x.id for x in ast.walk(f) if isinstance(x, ast.Name)} | set(allp)
+        ren: Dict[str, str] = {}
+        for p_ in allp:
+            given = set()
+            for c in sites:
+                a_ = None
+                if p_ in pos and pos.index(p_) < len(c.args):
+                    a_ = c.args[pos.index(p_)]
+                else:
+                    a_ = next((k.value for k in c.keywords if k.arg == p_), None)
+                if isinstance(a_, ast.Name) and a_.id == p_ and any(x is c for x in ast.walk(f)):
+                    continue   # a recursive call that passes the parameter on says nothing about its name
+                given.add(a_.id if isinstance(a_, ast.Name) else None)
+            if len(given) == 1 and None not in given:
+                new = next(iter(given))
+                if new != p_ and new not in body_names and new not in ren.values() and new not in ("self", "cls"):
+                    ren[p_] = new
+        if not ren:
+            continue
+        for a in f.args.args + f.args.kwonlyargs:
+            a.arg = ren.get(a.arg, a.arg)
+        for x in ast.walk(f):
+            if isinstance(x, ast.Name) and x.id in ren:
+                x.id = ren[x.id]
+        for c in sites:
+            for k in c.keywords:
+                if k.arg in ren:
+                    k.arg = ren[k.arg]
+
+
 def canonicalise(tree: ast.Module) -> ast.Module:
+    if not os.environ.get("PQSTATIC_NO_PARAM_CANON"):
+        _canon_private_params(tree)
     return ast.fix_missing_locations(_Canon().visit(tree))
 
 
